@@ -25,7 +25,11 @@ CLAIM = {
             "its documented value (nan, constant, callable, bound = nearest end, mirror = triangle wave, periodic = "
             "wrapped position) at exactly the outside queries, the default mode follows the boundary condition, and "
             "batched extrapolation is rejected.",
-    "note": "Bounded in the tensor shapes (stated per unit), unbounded in the values: each obligation is a proof for all "
+    "note": "Additionally proved for EVERY number of knots and queries (tensors of symbolic length, generic position and "
+            "interval; units any_size[*]): the interval search finds an interval containing the query and both evaluation "
+            "formulas of LinearInterp1D._interp and CubicSpline1D._interp (given the slopes) equal the interpolant on every "
+            "interval containing the query, with all gather indices in range. Everything else is "
+            "bounded in the tensor shapes (stated per unit), unbounded in the values: each obligation is a proof for all "
             "real entries. Assumed: linalg.solve returns a solution of its system (torch raises for a singular matrix), "
             "searchsorted/gather/sort/clamp semantics as written in pydv/arr.py, floats are reals. Not decided: "
             "differentiation (all operations are differentiable torch operations; nothing custom) and the constructor "
@@ -43,7 +47,8 @@ META = {
                                  "xitorch._impls.interpolate.interp_1d:BaseInterp1D.__call__, LinearInterp1D._interp, CubicSpline1D.__init__/_interp, "
                                  "_get_spline_mat_inv, check_and_get_extrap, check_periodic_value",
                                  "xitorch._impls.interpolate.extrap_utils:get_extrap_pos, get_extrap_val", "xitorch._utils.bcast:match_dim"],
-    "trusted_base": ["pydv/arr.py: element-wise meaning of the torch operations used, views alias their base", "linalg.solve returns a solution",
+    "trusted_base": ["pydv/arr.py: element-wise meaning of the torch operations used, views alias their base",
+                     "pydv/lam.py: tensors of symbolic length as functions of the index; contract of searchsorted", "linalg.solve returns a solution",
                      "floats are reals", "z3 / cvc5 nonlinear real arithmetic"],
     "assumptions": ["shapes: 3..6 knots, 1..7 queries, batch 2", "floats are reals"],
     "not_applicable_parts": ["derivatives of the result (torch autograd of standard operations)", "x requiring grad at construction"],
@@ -228,6 +233,86 @@ def unit_interp(method, bc, n, nq, y_at):
         value_obligations(c, tag, method, x.a, y.a, K, q.a, out.a, n)
         c.prove("canary", z3.BoolVal(False), kind="canary")
     return kit.run_unit("%s%s[n=%d,nq=%d,y_at_%s]" % (method, "/" + bc if method != "linear" else "", n, nq, y_at), run)
+
+
+def unit_interp_generic(method):
+    """the evaluation of LinearInterp1D / CubicSpline1D (given the slopes) for EVERY number of knots and queries:
+    tensors of symbolic length (LAM domain), a generic query position p and a generic interval j"""
+    from pydv import lam
+    from pydv.core import fresh_int, discharge
+
+    def run():
+        c = ctx()
+        nr, nq = fresh_int("nr"), fresh_int("nq")
+        c.assume(z3.And(nr.e >= 2, nq.e >= 1))
+        x, y, ks, q = lam.sym("x", nr), lam.sym("y", nr), lam.sym("k", nr), lam.sym("q", nq)
+        T = lam.make_torch()
+        m = mods()
+        tag = "any_size[%s]" % method
+        with kit.patched(m["i1"], "torch", T), kit.patched(m["bc"], "torch", T):
+            cls = m["i1"].LinearInterp1D if method == "linear" else m["i1"].CubicSpline1D
+            obj = object.__new__(cls)
+            obj.x, obj.y_is_given, obj.y, obj.ks = x, True, y, ks
+            ok, out = kit.call_or_fail(c, tag + ":evaluation_does_not_raise", lambda: obj._interp(q, y=y))
+        if not ok:
+            return
+        many = c.branch(nq.e > nr.e)          # which of the two internal formulas ran on this path
+        tag = tag + ("[more queries than knots]" if many else "[not more queries than knots]")
+        c.check(tag + ":one_value_per_query", isinstance(out, lam.LT) and len(out.shape) == 1 and
+                z3.is_true(z3.simplify(lam._z(out.shape[0]) == nq.e)))
+        searches = c.ghost.get("lam_searches", [])
+        c.check(tag + ":one_interval_search", len(searches) == 1)
+        if len(searches) != 1:
+            return
+        rec = searches[0]
+        X = lambda i: x.fn((i,))
+        Y = lambda i: y.fn((i,))
+        K = lambda i: ks.fn((i,))
+        pp, j = z3.Int("p"), z3.Int("j")
+        qp = q.fn((pp,))
+        s = rec["f"](pp)
+        n = nr.e
+        # clamp(s, 1, nr-1): the very term the code builds (same constructor, so the same AST)
+        cl = lam.clamp(lam.LT((nq,), lambda idx: rec["f"](idx[-1]), "int"), 1, nr - 1).fn((pp,))
+        r = z3.Int("idxr")
+        outp = out.fn((pp,))
+        outr = z3.substitute(outp, (cl, r))
+        c.check(tag + ":result_depends_on_the_search_only_through_the_clamped_index", "ss0" not in outr.sexpr(), detail=outr.sexpr()[:200])
+        pts = [z3.IntVal(0), n - 1, j, j + 1, s - 1, s, cl - 1, cl]
+        mono = []
+        for a in pts:
+            for b in pts:
+                if not z3.eq(a, b):
+                    mono.append(z3.Implies(z3.And(a >= 0, b < n, a < b), X(a) < X(b)))   # strictly increasing knots, instantiated
+        facts = [n >= 2, pp >= 0, pp < nq.e, j >= 0, j <= n - 2, X(j) <= qp, qp <= X(j + 1), X(z3.IntVal(0)) <= qp, qp <= X(n - 1)] \
+            + lam.search_facts(rec, pp) + mono
+        # every index handed to gather is within the range of the gathered tensor
+        for gk, g in enumerate(c.ghost.get("lam_gathers", [])):
+            ix = g["index"].fn((pp,))
+            st_, be, det = discharge(facts, z3.And(ix >= 0, ix < lam._z(g["n"])))
+            if st_ != "proved":
+                c.prove(tag + ":gather_indices_are_within_range", z3.Implies(z3.And(*facts), z3.And(ix >= 0, ix < lam._z(g["n"]))))
+                return
+        c.ok(tag + ":gather_indices_are_within_range")
+        # the interval found is j, or a neighbour when the query sits on the knot between them
+        cases = [("found_interval_is_j", z3.And(cl == j + 1), j + 1), ("query_on_left_knot", z3.And(cl == j, qp == X(j)), j),
+                 ("query_on_right_knot", z3.And(cl == j + 2, qp == X(j + 1)), j + 2)]
+        prove_with(c, tag + ":search_finds_an_interval_containing_the_query", z3.Or(*[cnd for _, cnd, _ in cases]), facts)
+        if method == "linear":
+            want = linear(X(j), X(j + 1), Y(j), Y(j + 1), qp)
+        else:
+            want = hermite(X(j), X(j + 1), Y(j), Y(j + 1), K(j), K(j + 1), qp)
+        for nm, cnd, rv in cases:
+            g, w_ = z3.substitute(outr, (r, rv)), want
+            if nm == "query_on_left_knot":          # the hypothesis q = x_j is used by rewriting
+                g, w_ = z3.substitute(g, (qp, X(j))), z3.substitute(w_, (qp, X(j)))
+            elif nm == "query_on_right_knot":
+                g, w_ = z3.substitute(g, (qp, X(j + 1))), z3.substitute(w_, (qp, X(j + 1)))
+            hyps = [X(j) < X(j + 1), X(j - 1) < X(j), X(j + 1) < X(j + 2), cnd, X(j) <= qp, qp <= X(j + 1)]
+            prove_with(c, tag + ":value_is_the_interpolant_on_every_interval_containing_the_query[%s]" % nm, z3.simplify(g) == z3.simplify(w_), hyps)
+        # sample values at the sample positions follow: q = x_j is in interval j (or j-1 for the last knot)
+        c.prove("canary", z3.BoolVal(False), kind="canary")
+    return kit.run_unit("any_size[%s]" % method, run)
 
 
 def unit_no_y(method):
@@ -496,6 +581,7 @@ def units(tier):
     for bc, n, nq, y_at in cs:
         add("cspline/%s[n=%d,nq=%d,y_at_%s]" % (bc, n, nq, y_at), lambda bc=bc, n=n, nq=nq, y_at=y_at: unit_interp("cspline", bc, n, nq, y_at))
     for mth in ("linear", "cspline"):
+        add("any_size[%s]" % mth, lambda mth=mth: unit_interp_generic(mth))
         add("rejections[%s]" % mth, lambda mth=mth: unit_no_y(mth))
         for perm, y_at in (((2, 0, 3, 1), "init"), ((2, 0, 3, 1), "call"), ((3, 2, 1, 0), "call"), ((1, 2, 0), "init")):
             add("unsorted[%s,%s,y_at_%s]" % (mth, "".join(map(str, perm)), y_at), lambda mth=mth, perm=perm, y_at=y_at: unit_unsorted(mth, perm, y_at))
